@@ -140,6 +140,11 @@ def judge (c o : String) : Option Verdict := do
         (if allSame chs && allSame shs then none
          else some ("hs-differ", s!"Handshake callers saw different results: client {chs} server {shs}")),
         streamVerdict "client→server" (calls 0 cw) (kv ot "cwres") (kv ot "cstream")]
+    else if scen == "hsclose" then
+      let chs := items ((kv ot "chs").getD "-")
+      let shs := items ((kv ot "shs").getD "-")
+      if allSame chs && allSame shs then none
+      else some ("hs-differ", s!"Handshake callers saw different results: client {chs} server {shs}")
     else if scen == "close" then
       let cl := items ((kv ot "close").getD "-")
       let winners := (cl.filter (· != "closed")).length
